@@ -18,7 +18,7 @@ Monitors
 from __future__ import annotations
 
 import random
-from collections.abc import Sequence  # noqa: F401 - named by (string) annotations of classes defined in this module
+from collections.abc import Mapping, Sequence  # noqa: F401 - named by (string) annotations of classes defined in this module
 from typing import Any
 
 from hv.gen import annotations as A
@@ -430,6 +430,115 @@ def same_named_subclass_probes(R: Recorder) -> None:
             R.monitor("rejects-violating", status[0] != "ok", where={**where, "kind": "accepted-violating"}, detail=f"{label}: accepted {kwargs!r}", case=case)
 
 
+def self_reference_probes(R: Recorder) -> None:
+    """`typing.Self` in attribute annotations (bare, in a union, inside containers) of a class and of its subclasses: for each class Self
+    means that class - an instance of the class or of a subclass of it conforms, an instance of its parent or of a sibling does not"""
+    from typing import Self
+
+    from haiway import State
+
+    ns: dict[str, Any] = {"State": State, "Self": Self, "Sequence": Sequence, "Mapping": Mapping}
+    exec(compile(  # noqa: S102
+        "class Node(State):\n    name: str\n    next: Self | None = None\n    kids: Sequence[Self] = ()\n    table: Mapping[str, Self] | None = None\n    pair: tuple[Self, ...] = ()\n    only: Self | int = 0\n"
+        "class Folder(Node):\n    extra: int = 0\n"
+        "class Link(Node):\n    target: str = ''\n"
+        "class SubFolder(Folder):\n    deep: bool = False\n"
+        "class Unrelated(State):\n    name: str\n", "<hv-self-probes>", "exec", dont_inherit=True), ns)
+    classes = {k: ns[k] for k in ("Node", "Folder", "Link", "SubFolder", "Unrelated")}
+    made = {k: (c(name=k.lower())) for k, c in classes.items()}
+    shapes = {"next": lambda v: v, "kids": lambda v: [v], "table": lambda v: {"k": v}, "pair": lambda v: (v,), "only": lambda v: v}
+    for cname in ("Node", "Folder", "SubFolder"):
+        cls = classes[cname]
+        for vname, value in made.items():
+            conforms = isinstance(value, cls)
+            for attr, shape in shapes.items():
+                label = f"{cname}({attr}={'[' if attr == 'kids' else ''}{vname} instance)"
+                case = {"self_reference": label}
+                try:
+                    inst = cls(name="x", **{attr: shape(value)})
+                    status: tuple[str, Any] = ("ok", inst)
+                except Exception as exc:  # noqa: BLE001
+                    status = ("raised", exc)
+                R.case(case, nontrivial=True)
+                R.count("self_reference_probes")
+                where = {"top": "self", "at": attr, "origin": "self-reference", "declared_in_base": cname != "Node"}
+                if conforms:
+                    R.monitor("accepts-conforming", status[0] == "ok", where={**where, "kind": "rejected-conforming", "error": type(status[1]).__name__ if status[0] != "ok" else None},
+                              detail=f"{label}: Self means {cname} there and the value is an instance of it; construction raised {status[1]!r}", case=case)
+                else:
+                    R.monitor("rejects-violating", status[0] != "ok", where={**where, "kind": "accepted-violating"},
+                              detail=f"{label}: Self means {cname} there, the value is a {type(value).__name__} (not a {cname}); it was accepted -> {status[1]!r}", case=case)
+                if status[0] == "ok" and conforms:
+                    # ... and an updated copy validates the same way
+                    try:
+                        other = [v for k, v in made.items() if not isinstance(v, cls)][0]
+                        inst.updated(**{attr: shape(other)})
+                        upd = "accepted"
+                    except Exception:  # noqa: BLE001
+                        upd = "rejected"
+                    R.monitor("rejects-violating", upd == "rejected", where={**where, "kind": "accepted-violating", "through": "updated"}, detail=f"{label}: updated({attr}=<{type(other).__name__}>) was accepted", case=case)
+
+
+POSTPONED_SRC = """from __future__ import annotations
+from collections.abc import Sequence, Mapping
+from haiway import State
+
+class PBox[T](State):
+    value: T
+    items: Sequence[T] = ()
+
+class PNode[T](State):
+    value: T
+    next: PBox[T] | None = None
+    table: Mapping[str, "T"] | None = None
+
+class PPlain(State):
+    value: int
+    box: PBox[int] | None = None
+"""
+
+
+def postponed_annotation_probes(R: Recorder) -> None:
+    """a module that postpones its annotations (`from __future__ import annotations`, quoted names): every annotation reaches the library
+    as a string, also those that mention the type parameters of a generic State"""
+    import sys
+    import types
+
+    case0 = {"postponed_annotations": "module"}
+    mod = types.ModuleType("hv_postponed_annotation_probes")
+    sys.modules[mod.__name__] = mod
+    try:
+        try:
+            exec(compile(POSTPONED_SRC, "<hv-postponed>", "exec", dont_inherit=True), mod.__dict__)  # noqa: S102
+        except BaseException as exc:  # noqa: BLE001
+            R.case(case0, nontrivial=True)
+            R.monitor("accepts-conforming", False, where={"kind": "class-definition-failed", "error": type(exc).__name__, "variant": "postponed-annotations"}, detail=f"defining generic State classes in a module with postponed annotations raised {exc!r}", case=case0)
+            return
+        ns = mod.__dict__
+        probes: list[tuple[str, Any, bool]] = [
+            ("PBox[int](value=1, items=[2])", lambda: ns["PBox"][int](value=1, items=[2]), True), ("PBox[int](value='x')", lambda: ns["PBox"][int](value="x"), False),
+            ("PBox[int](value=1, items=['x'])", lambda: ns["PBox"][int](value=1, items=["x"]), False), ("PNode[str](value='a', next=PBox[str](value='b'))", lambda: ns["PNode"][str](value="a", next=ns["PBox"][str](value="b")), True),
+            ("PNode[str](value='a', next=PBox[int](value=1))", lambda: ns["PNode"][str](value="a", next=ns["PBox"][int](value=1)), False), ("PNode[int](value=1, table={'k': 2})", lambda: ns["PNode"][int](value=1, table={"k": 2}), True),
+            ("PNode[int](value=1, table={'k': 'x'})", lambda: ns["PNode"][int](value=1, table={"k": "x"}), False), ("PPlain(value=1, box=PBox[int](value=2))", lambda: ns["PPlain"](value=1, box=ns["PBox"][int](value=2)), True),
+            ("PPlain(value=1, box=PBox[str](value='x'))", lambda: ns["PPlain"](value=1, box=ns["PBox"][str](value="x")), False),
+        ]
+        for label, make, conforms in probes:
+            case = {"postponed_annotations": label}
+            try:
+                status: tuple[str, Any] = ("ok", make())
+            except Exception as exc:  # noqa: BLE001
+                status = ("raised", exc)
+            R.case(case, nontrivial=True)
+            R.count("postponed_annotation_probes")
+            where = {"top": "generic", "at": "type-parameter", "origin": "postponed-annotations"}
+            if conforms:
+                R.monitor("accepts-conforming", status[0] == "ok", where={**where, "kind": "rejected-conforming", "error": type(status[1]).__name__ if status[0] != "ok" else None}, detail=f"{label} raised {status[1]!r}", case=case)
+            else:
+                R.monitor("rejects-violating", status[0] != "ok", where={**where, "kind": "accepted-violating"}, detail=f"{label} was accepted -> {status[1]!r}", case=case)
+    finally:
+        sys.modules.pop(mod.__name__, None)
+
+
 def alias_spelling_probes(R: Recorder, N: Any) -> None:
     """one type, two spellings of it as a type argument of a generic State: through a type alias (`Box[IntOrStr]`, `Box[Names]`,
     `Box[MaybeSeq[int]]`) in the annotation, written out (`Box[int | str]`, ...) where the value is made - and the other way round"""
@@ -462,6 +571,8 @@ def alias_spelling_probes(R: Recorder, N: Any) -> None:
 def run(R: Recorder, tier: str, seed: int, shard: int, nshards: int) -> None:
     if shard == 0:
         same_named_subclass_probes(R)
+        self_reference_probes(R)
+        postponed_annotation_probes(R)
         alias_spelling_probes(R, Runner(R).N)
     depth = 1 if tier == "quick" else 2
     R.flags["exhaustive_core"] = f"every annotation term up to depth {depth} over the vocabulary x (conforming, single-position-broken, 70 hostile battery values, omitted)"
@@ -478,7 +589,10 @@ def run(R: Recorder, tier: str, seed: int, shard: int, nshards: int) -> None:
         # states, subclasses of specialisations - and the one spelling that is a known finding (type argument None)
         S, P = ("prim", "str"), ("prim", "int")
         for term, pos in ((("generic", "Pair2", [("seq", ("none",)), S]), (0, 0)), (("generic", "Pair2", [("seq", P), S]), (0, 0)), (("generic", "Box", [("set", P)]), (0, 0)),
-                          (("palias", "MaybeSeq", [("frozenset", P)]), (0, 0)), (("generic", "Pair2", [P, ("generic", "Box", [P])]), (0,)), (("seq", ("palias", "MaybeSeq", [("generic", "Box", [("none",)])])), (0, 0, 0))):
+                          (("palias", "MaybeSeq", [("frozenset", P)]), (0, 0)), (("generic", "Pair2", [P, ("generic", "Box", [P])]), (0,)), (("seq", ("palias", "MaybeSeq", [("generic", "Box", [("none",)])])), (0, 0, 0)),
+                          # the type variable sits two levels deep inside an argument of a generic State (inside a generic State inside a container / a union)
+                          (("generic", "Pair2", [("seq", ("generic", "Box", [P])), S]), (0, 0, 0)), (("generic", "Box", [("union", [("generic", "Box", [P]), ("none",)])]), (0, 0, 0)),
+                          (("generic", "Box", [("map", S, ("generic", "Pair2", [P, S]))]), (0, 1, 0))):
             for variant in ("typevar", "typevar-subclass", "typevar-child", "typevar-bound"):
                 if variant == "typevar-bound" and A.mentions(term, "none"):
                     continue
@@ -501,6 +615,12 @@ def run(R: Recorder, tier: str, seed: int, shard: int, nshards: int) -> None:
 def replay(R: Recorder, case: dict[str, Any]) -> None:
     if "same_named_subclass" in case:
         same_named_subclass_probes(R)
+        return
+    if "postponed_annotations" in case:
+        postponed_annotation_probes(R)
+        return
+    if "self_reference" in case:
+        self_reference_probes(R)
         return
     if "alias_spelling" in case:
         alias_spelling_probes(R, Runner(R).N)
